@@ -232,23 +232,47 @@ class GridRule:
         if loop is None:
             return False, "column store outside a loop"
         ss = self.search_space_params(f)
-        it = loop.iter
-        i = col = None
-        if isinstance(it, ast.Call) and dotted(it.func) == "enumerate" and len(it.args) == 1 and isinstance(loop.target, ast.Tuple) and len(loop.target.elts) == 2:
-            g0 = it.args[0]
-            if isinstance(g0, ast.Attribute) and g0.attr == "param_grid" and isinstance(g0.value, ast.Name) and g0.value.id in ss:
-                i, col = src(loop.target.elts[0]), src(loop.target.elts[1])
-        elif isinstance(it, ast.Call) and dotted(it.func) == "range" and isinstance(loop.target, ast.Name) and len(it.args) == 1:
-            if any(src(it.args[0]) == f"{s}.dims" or src(it.args[0]) == f"len({s}.param_grid)" for s in ss):
-                i = loop.target.id
-                col = next((f"{s}.param_grid[{i}]" for s in ss), None)
-        if i is None:
+        # the header is read canonically: whatever names it binds are expressed through the induction symbol _I_ (range / enumerate / zip / index forms alike)
+        from ..util import IDX, _substitute, kwarg as _kw, loop_binding
+        try:
+            benv, counts = loop_binding(loop.target, loop.iter)
+        except AnalysisError:
+            return False, "column loop header cannot be read"
+
+        def strip(e: ast.expr) -> ast.expr:
+            while isinstance(e, ast.Call) and isinstance(e.func, ast.Name) and e.func.id in ("tuple", "list") and len(e.args) == 1 and not e.keywords:
+                e = e.args[0]
+            return e
+
+        def canon_txt(e: ast.expr) -> str:
+            e2 = e
+            for nm, ve in benv.items():
+                e2 = _substitute(e2, nm, ve)
+            # tuple(G)[i] / list(G)[i] is G[i]
+            class S(ast.NodeTransformer):
+                def visit_Subscript(self, node):  # noqa: N802
+                    self.generic_visit(node)
+                    node.value = strip(node.value)
+                    return node
+            import copy as _copy
+            e2 = S().visit(_copy.deepcopy(e2))
+            return ast.unparse(e2).replace(" ", "")
+        grid_of = None
+        for s_ in ss:
+            if any(canon_txt(c_) in (f"len({s_}.param_grid)", f"{s_}.dims", f"len(tuple({s_}.param_grid))", f"len(list({s_}.param_grid))") for c_ in counts):
+                grid_of = s_
+        if grid_of is None:
             return False, "column loop does not run over the whole param_grid of the search space"
-        if src(t.slice) not in (f"(:, {i})", f":, {i}"):
-            return False, f"column store target `{src(t)}` is not column `{i}`"
+        tslice = canon_txt(t.slice)
+        if tslice not in (f"(slice(None,None,None),{IDX})", f"(:,{IDX})", f":,{IDX}", f"(:,{IDX}+0)"):
+            # ast.unparse of a tuple slice prints `:, i`
+            if ast.unparse(t.slice).replace(" ", "") not in {f":,{nm}" for nm, ve in benv.items() if ast.unparse(ve) == IDX}:
+                return False, f"column store target `{src(t)}` is not the column of the loop index"
         v = a.value
-        if not (isinstance(v, ast.Call) and isinstance(v.func, ast.Attribute) and v.func.attr == "choice" and v.args and src(v.args[0]) == col):
-            return False, f"column `{i}` is filled with `{src(v)[:60]}`, not with draws from its own grid column"
+        first = (v.args[0] if v.args else _kw(v, "a")) if isinstance(v, ast.Call) else None
+        if not (isinstance(v, ast.Call) and isinstance(v.func, ast.Attribute) and v.func.attr == "choice" and first is not None
+                and canon_txt(first) == f"{grid_of}.param_grid[{IDX}]"):
+            return False, f"column is filled with `{src(v)[:60]}`, not with draws from its own grid column"
         if any(isinstance(x, (ast.If, ast.Break, ast.Continue)) for x in ast.walk(loop)):
             return False, "column loop can skip columns"
         return True, "uniform column"
